@@ -167,6 +167,16 @@ class Onset(Task):
 
 
 # =============================================================================================
+# label alphabets whose members are distinct strings but "look" equal to a normalising comparison (case, surrounding
+# blanks, numeric value, Unicode composition): label identity is string identity
+TWIN_ALPHABETS = [["a", "A", "b", "B"], ["verse", "Verse", "VERSE", "chorus"], ["x", " x", "x ", "y"],
+                  ["1", "01", "1.0", "2"], ["\u00e9", "e\u0301", "e"], ["", " ", "a"]]
+
+
+def pick_alphabet(rng, default):
+    return rng.choice(TWIN_ALPHABETS) if rng.random() < 0.15 else default
+
+
 def gen_segmentation(rng, span, nmax=6, labels="abcd", lat=8, start=Fr(0)):
     """contiguous labelled segmentation of [start, start+span] on a 1/lat lattice"""
     n = rng.randint(1, nmax)
@@ -221,13 +231,14 @@ class Segment(Task):
             ei, el = (ivs, ["t%d" % i for i in range(n)]) if rng.random() < 0.5 else ([[Fr(0), span]], ["x"])
             return {"ref": [sv(ri), rl], "est": [sv(ei), el]}
         span = Fr(rng.randint(2, 12))
-        ri, rl = gen_segmentation(rng, span)
+        ri, rl = gen_segmentation(rng, span, labels=pick_alphabet(rng, "abcd"))
+        ealpha = pick_alphabet(rng, "wxyz")
         if u < 0.2:
             ei, el = [], []          # an empty estimate is padded to the reference span by evaluate()
         elif u < 0.3:
-            ei, el = gen_segmentation(rng, span + Fr(rng.choice([-1, 1, 2])), labels="wxyz")  # other duration
+            ei, el = gen_segmentation(rng, span + Fr(rng.choice([-1, 1, 2])), labels=ealpha)  # other duration
         else:
-            ei, el = gen_segmentation(rng, span, labels="wxyz")
+            ei, el = gen_segmentation(rng, span, labels=ealpha)
         return {"ref": [sv(ri), rl], "est": [sv(ei), el]}
 
     def swap(self, inp):
@@ -253,11 +264,12 @@ class Segment(Task):
         out = {}
         for side in ("ref", "est"):
             ivs, labs = inp[side]
-            names = sorted(set(labs))
+            # label identity is identity modulo case (util.index_labels, case_sensitive=False)
+            names = sorted(set(x.lower() for x in labs))
             new = ["L%d_%d" % (rng.randint(0, 99), i) for i in range(len(names))]   # distinct also modulo case
             rng.shuffle(new)
             m = dict(zip(names, new))
-            out[side] = [ivs, [m[x] for x in labs]]
+            out[side] = [ivs, [m[x.lower()] for x in labs]]
         return out
 
     def range_exempt(self, inp, score):
@@ -296,7 +308,8 @@ class Hierarchy(Task):
                             [["all"], ["e%d" % rng.randint(0, 9) for _ in range(n // 2)]]],
                     "kw": {"frame_size": 1.0}}
         span = Fr(rng.randint(2, 8))
-        return {"ref": self._hier(rng, span, "abc"), "est": self._hier(rng, span, "xyz")}
+        return {"ref": self._hier(rng, span, pick_alphabet(rng, "abc")),
+                "est": self._hier(rng, span, pick_alphabet(rng, "xyz"))}
 
     def gen_self(self, rng):
         # non-degenerate = a reference triple exists: properly nested levels, the deepest with >= 2 segments,
@@ -327,11 +340,11 @@ class Hierarchy(Task):
         out = {}
         for side in ("ref", "est"):
             ivs, labs = inp[side]
-            names = sorted({x for lv in labs for x in lv})
+            names = sorted({x.lower() for lv in labs for x in lv})
             new = ["N%d_%d" % (rng.randint(0, 99), i) for i in range(len(names))]   # distinct also modulo case
             rng.shuffle(new)
             m = dict(zip(names, new))
-            out[side] = [ivs, [[m[x] for x in lv] for lv in labs]]
+            out[side] = [ivs, [[m[x.lower()] for x in lv] for lv in labs]]
         return out
 
 
